@@ -92,6 +92,9 @@ def main(argv=None):
                 continue
             ok, text = mod.confirm(rp, resp)
             why.setdefault(ci, []).append(f"[{rp.get('model_kind')}] {text}")
+            if not ok and os.environ.get("VERIF_DUMP_UNCONFIRMED"):
+                with open(os.path.join(os.environ["VERIF_DUMP_UNCONFIRMED"], f"{prop}_unconfirmed_{ci}.json"), "w") as f:
+                    json.dump({"obligation": cexs[ci]["obligation"], "request": rp, "response": resp, "text": text}, f, indent=1, default=str)
             if ok:
                 done.add(ci)
                 confirmed.append((cexs[ci], rp, resp, text))
